@@ -29,7 +29,8 @@ T0 = 1700000000
 
 def keysets_for(b):
     # C03's known findings about keys (aliasing; over-long directory names are dropped) are not persistence matters
-    ks = [k for k in dd.keysets_for(b) if not k.startswith('alias') and not (k == 'long' and b.startswith('dir'))]
+    ks = [k for k in dd.keysets_for(b) if not k.startswith('alias') and not (k == 'long' and b.startswith('dir'))
+          and not (k == 'int' and b in ('file-json', 'dir-json'))]
     return ks
 
 
